@@ -206,13 +206,23 @@ def gen_plan(rng, tier="quick"):
         if rng.random() < 0.5:
             r2["aux_seed"] = recipe.get("data", {}).get("seed", 0)   # same sites: same winds, depths, positions
         plan["pair"] = r2
+        if rng.random() < 0.35:
+            # ... or the same method with other options (on the same data): two lazy results of one method that differ only
+            # in their arguments exist side by side before either is computed
+            for _ in range(12):
+                op2 = O.gen_op(rng, recipe, "all")
+                if op2["m"] == op["m"] and json.dumps(op2, sort_keys=True) != json.dumps(op, sort_keys=True):
+                    plan["pair_op"] = op2
+                    if rng.random() < 0.6:
+                        plan["pair"] = json.loads(json.dumps(recipe))      # the very same dataset
+                    break
     return plan
 
 
 def shape(plan):
     ck = ",".join(f"{k}:{'w' if v == -1 else (v if isinstance(v, int) else 'u')}" for k, v in sorted(plan["chunks"].items()))
     c = plan["cfg"]
-    return f"{D.describe(plan['recipe'])}|{O.op_label(plan['op'])}|{ck}|aux={plan['aux']}|co={plan.get('coords', 'same')}{'|pair:' + D.describe(plan['pair']) if plan.get('pair') else ''}|K{c['K']}cs{c['chunksize']}{c['strategy']}"
+    return f"{D.describe(plan['recipe'])}|{O.op_label(plan['op'])}|{ck}|aux={plan['aux']}|co={plan.get('coords', 'same')}{'|pair:' + D.describe(plan['pair']) + ('+' + O.op_label(plan['pair_op']) if plan.get('pair_op') else '') if plan.get('pair') else ''}|K{c['K']}cs{c['chunksize']}{c['strategy']}"
 
 
 # ---------------------------------------------------------------------------------------
@@ -478,7 +488,8 @@ def execute(arg):
             dsc_b = apply_chunks(ds_b, pplan)
             import dask
 
-            la, lb = O.apply_op(dsc, op), O.apply_op(dsc_b, op)
+            op_b = plan.get("pair_op") or op
+            la, lb = O.apply_op(dsc, op), O.apply_op(dsc_b, op_b)
             fa = list(la) if isinstance(la, tuple) else [la]
             fb = list(lb) if isinstance(lb, tuple) else [lb]
             # reference for the pair: the same joint compute on the synchronous scheduler (dask itself cannot merge
@@ -487,7 +498,7 @@ def execute(arg):
             rb = joint[len(fa):]
             pair_sync = cmp.canon(tuple(rb) if isinstance(lb, tuple) else rb[0])
             sync_a = cmp.canon(tuple(joint[: len(fa)]) if isinstance(la, tuple) else joint[0])
-            pair_refs = (("first", sync_a, ds, ref_c), ("second", pair_sync, ds_b, cmp.canon(O.apply_op(ds_b, op))))
+            pair_refs = (("first", sync_a, ds, ref_c), ("second", pair_sync, ds_b, cmp.canon(O.apply_op(ds_b, op_b))))
         except Exception:
             pair_sync = None      # single-dataset run
             sim.count("pair_skipped")
@@ -501,7 +512,7 @@ def execute(arg):
             if dj and cls != "exact" and dj[0] in ("value", "nan-position"):
                 try:
                     for k in range(6 if cls == "fit" else 2):
-                        if cmp.compare(want, cmp.canon(O.apply_op(_perturbed(base, k + 1), op)), rtol=rtol, atol=atol):
+                        if cmp.compare(want, cmp.canon(O.apply_op(_perturbed(base, k + 1), op if which == "first" else (plan.get("pair_op") or op))), rtol=rtol, atol=atol):
                             sim.count("ill_conditioned_skipped")
                             dj = None
                             break
@@ -516,7 +527,7 @@ def execute(arg):
         if pair_sync is not None:
             import dask
 
-            lazy_b = O.apply_op(dsc_b, op)
+            lazy_b = O.apply_op(dsc_b, op_b)
             flat_a = list(lazy2) if isinstance(lazy2, tuple) else [lazy2]
             flat_b = list(lazy_b) if isinstance(lazy_b, tuple) else [lazy_b]
 
@@ -677,7 +688,7 @@ def simplify(plan):
     if plan.get("coords", "same") != "same":
         variant(lambda p: p.update(coords="same"))
     if plan.get("pair"):
-        variant(lambda p: p.pop("pair"))
+        variant(lambda p: (p.pop("pair"), p.pop("pair_op", None)))
     for key, val in (("nf", 3), ("nf", 5), ("nd", 4), ("nd", 8)):
         if r.get(key, 0) > val:
             def setk(p, key=key, val=val):
